@@ -26,4 +26,9 @@ def specViolation (immutable : Bool) (want : Option (List Bytes)) (o : Obs) : Op
   else if immutable && (match o.after with | some a => a != o.during | none => true) then some "immutable-stable"
   else none
 
+/-- What the harness records for ONE value `v` captured while the storage was `st`: its content at
+    capture, at the end of the handler (storage untouched), and – with the option – after history `h`. -/
+def observeVal (immutable : Bool) (st : Store) (h : List Overwrite) (v : Val) : Obs :=
+  { during := [v.read st], atEnd := [v.read st], after := if immutable then some [v.read (st.after h)] else none }
+
 end C06
